@@ -74,10 +74,14 @@ func buildBlockStatements(closureContext *parser.ClosureContext) []core_domain.C
 		//  with quote testImplementation('org.springframework.boot:spring-boot-starter-test')
 		isWithQuote := pathExpression.GetChildCount() >= 2
 		if isWithQuote {
-			argumentsContext := pathExpression.GetChild(1).(*parser.PathElementContext).GetChild(0).(*parser.ArgumentsContext)
-			argListCtx := argumentsContext.GetChild(1).(*parser.EnhancedArgumentListContext)
-			for _, argElement := range argListCtx.AllEnhancedArgumentListElement() {
-				result = ConvertToJDep(argElement.GetText())
+			argumentsContext, isArguments := pathExpression.GetChild(1).(*parser.PathElementContext).GetChild(0).(*parser.ArgumentsContext)
+			if isArguments && argumentsContext.GetChildCount() >= 3 {
+				argListCtx := argumentsContext.GetChild(1).(*parser.EnhancedArgumentListContext)
+				for _, argElement := range argListCtx.AllEnhancedArgumentListElement() {
+					if dep := ConvertToJDep(argElement.GetText()); dep != nil {
+						result = dep
+					}
+				}
 			}
 		}
 
@@ -101,14 +105,10 @@ func BuildDependency(argumentListContext *parser.ArgumentListContext) *core_doma
 	for _, arg := range argumentListContext.AllArgumentListElement() {
 		if reflect.TypeOf(arg.(*parser.ArgumentListElementContext).GetChild(0)).String() == "*parser.ExpressionListElementContext" {
 			listElementContext := arg.(*parser.ArgumentListElementContext).GetChild(0).(*parser.ExpressionListElementContext)
-			literalPrmrAltContext := listElementContext.
-				GetChild(0).
-				GetChild(0).
-				GetChild(0).
-				GetChild(0).(*parser.LiteralPrmrAltContext)
-
-			resultStr := literalPrmrAltContext.Literal().GetChild(0).(*parser.StringLiteralContext).StringLiteral().GetText()
-			result = ConvertToJDep(resultStr)
+			// only string notation declares coordinates: 'g:a:v', "g:a:$v"; project(':x'), fileTree(..), files(..) do not
+			if dep := ConvertToJDep(listElementContext.GetText()); dep != nil {
+				result = dep
+			}
 		}
 	}
 	return result
@@ -116,7 +116,14 @@ func BuildDependency(argumentListContext *parser.ArgumentListContext) *core_doma
 
 func ConvertToJDep(result string) *core_domain.CodeDependency {
 	// string notation is written with single or with double quotes
+	isString := len(result) >= 2 && (result[0] == '\'' || result[0] == '"') && result[len(result)-1] == result[0]
+	if !isString {
+		return nil
+	}
 	withoutQuote := strings.Trim(result, "'\"")
 	split := strings.Split(withoutQuote, ":")
+	if len(split) < 2 {
+		return nil
+	}
 	return core_domain.NewCodeDependency(split[0], split[1])
 }
